@@ -191,10 +191,83 @@ func c14IllTypedBatches(tier string) int {
 	if tier == "thorough" {
 		n *= 3
 	}
-	return (n + c14IllBatch - 1) / c14IllBatch
+	return (n+c14IllBatch-1)/c14IllBatch + c14ManyBindings
 }
 
+// c14ManyBindings files hold more variables than any counter of generated names is likely to be made for.
+const c14ManyBindings = 3
+
 func c14IllTyped(ctx *fw.Ctx, e jsx.Engine, b int) fw.Result {
+	if first := c14IllTypedBatches(ctx.Tier) - c14ManyBindings; b >= first {
+		// one file, thousands of lets, loops and content params
+		nt, per := []int{60, 130, 1100}[b-first], []int{20, 85, 10}[b-first]
+		var src strings.Builder
+		src.WriteString("{namespace many}\n/** @param? p */\n{template .show}[{$p ?: ''}]{/template}\n")
+		for t := 0; t < nt; t++ {
+			fmt.Fprintf(&src, "/** */\n{template .t%d}\n", t)
+			for k := 0; k < per; k++ {
+				switch k % 5 {
+				case 0:
+					fmt.Fprintf(&src, "{let $v%d: 'a%d.%d' /}{$v%d}", k, t, k, k)
+				case 1:
+					fmt.Fprintf(&src, "{let $w%d}b{$v%d}{/let}{$w%d}", k, k-1, k)
+				case 2:
+					fmt.Fprintf(&src, "{foreach $x in [1, 2]}{$x}{isLast($x) ? '.' : ','}{/foreach}")
+				case 3:
+					fmt.Fprintf(&src, "{for $i in range(2)}{$i}{/for}")
+				default:
+					fmt.Fprintf(&src, "{call .show}{param p}c%d{/param}{/call}", k)
+				}
+			}
+			src.WriteString("\n{/template}\n")
+		}
+		files := []srcFile{{"many.soy", src.String()}}
+		reg, err := compileRegistry(files, nil)
+		if err != nil {
+			return fw.Result{Verdict: fw.Skip}
+		}
+		ctx.Cell("many-bindings")
+		ctx.Eval(fmt.Sprintf("many:%d:%d", nt, per))
+		js, err := genJS(reg, soyjs.Options{})
+		if err != nil {
+			return fw.Result{Verdict: fw.Violated, Key: "js-generation-fails:many-bindings", Case: fmt.Sprintf("%d templates of %d bindings", nt, per), Msg: errText(err)}
+		}
+		if file, err := loadBundleJS(e, reg, js); err != nil {
+			if _, isEng := err.(jsx.EngineError); isEng {
+				return fw.Result{Verdict: fw.Inconclusive, Key: "engine-failure", Msg: err.Error()}
+			}
+			return fw.Result{Verdict: fw.Violated, Key: "js-does-not-load:many-bindings", Case: fmt.Sprintf("%d templates of %d bindings in one file", nt, per),
+				Msg: fmt.Sprintf("the JavaScript generated for %s (%d templates, %d bindings each) does not load: %v", file, nt, per, fw.Trim(err.Error(), 300))}
+		}
+		for _, t := range []int{0, nt / 2, nt - 1} {
+			if v, _, err := e.Eval(fmt.Sprintf("typeof many.t%d", t)); err != nil || v != "function" {
+				return fw.Result{Verdict: fw.Violated, Key: "js-function-missing", Case: fmt.Sprintf("%d templates of %d bindings", nt, per), Msg: fmt.Sprintf("typeof many.t%d = %q (%v)", t, v, err)}
+			}
+			// ... and each still prints its own values
+			got, _, err := e.Eval(fmt.Sprintf("many.t%d({})", t))
+			want := ""
+			for k := 0; k < per; k++ {
+				switch k % 5 {
+				case 0:
+					want += fmt.Sprintf("a%d.%d", t, k)
+				case 1:
+					want += fmt.Sprintf("ba%d.%d", t, k-1)
+				case 2:
+					want += "1,2."
+				case 3:
+					want += "01"
+				default:
+					want += fmt.Sprintf("[c%d]", k)
+				}
+			}
+			if err != nil || got != want {
+				return fw.Result{Verdict: fw.Violated, Key: "literal-not-preserved:many-bindings", Case: fmt.Sprintf("%d templates of %d bindings", nt, per),
+					Msg: fmt.Sprintf("many.t%d() returned %q (err %v), want %q", t, fw.Trim(fmt.Sprint(got), 200), err, fw.Trim(want, 200))}
+			}
+		}
+		ctx.Obs("bindings_in_one_file", int64(nt*per))
+		return fw.Result{Verdict: fw.Held}
+	}
 	all := c01Systematic()
 	f := &ref.File{Name: "ill.soy", Namespace: "ill"}
 	for k := b * c14IllBatch; k < (b+1)*c14IllBatch; k++ {
